@@ -264,7 +264,7 @@ def _mk_c16(tier, seed):
 
 def _mk_c01(tier, seed):
     import scenarios
-    return scenarios.c01n_jobs(tier, seed) + scenarios.c01u_jobs(tier, seed)
+    return scenarios.c01n_jobs(tier, seed) + scenarios.c01u_jobs(tier, seed) + scenarios.c01q_jobs(tier, seed)
 
 
 def _mk_c12(tier, seed):
